@@ -67,6 +67,11 @@ func init() {
 			ruleFullScan(c)
 			ruleLookupStateless(c, []string{"plenccodec.StructCodec.Read", "plenccodec.Descriptor.readAsStruct"})
 			ruleStructUntouched(c)
+			// nested targets: a non-nil pointer is decoded into, not replaced, so fields absent below it survive
+			rulePointerWrapper(c)
+			ruleMapSlotMerge(c)
+			ruleWalkerLookup(c)
+			ruleRejects(c, B, nil)
 			ruleFieldNameUse(c)
 			ruleAnyOrder(c, B)
 			ruleWireConsts(c)
